@@ -34,9 +34,9 @@ GHOST_ARRAYS = {
 }
 
 TRUSTED = [
-    "asyncio.Task contract T1-T5 (create_task returns a fresh not-started task; cancel() requests; a not-started task with a pending request finishes cancelled without running; delivery at the current await; no spurious CancelledError)",
-    "asyncio.Semaphore / Lock / Event: NOT assumed any more - their transition systems (DESIGN A.1; Lock.acquire never suspends on a free lock nobody waits for; Event set/is_set/wait) are verified from the interpreter's own asyncio/locks.py by the units asyncio.locks.* (which run with every pool check); what remains assumed there is the Future state machine, Task.cancel() cancelling the awaited future, and collections.deque",
-    "asyncio.gather: its contract (normal return => every distinct child done; without return_exceptions the exception raised is the own exception of a finished child or a CancelledError for a child that finished cancelled; with return_exceptions only a requested cancellation makes it raise) is the invariant G1-G3 of gather's done-callback, verified from the interpreter's own asyncio/tasks.py by unit asyncio.tasks.gather; assumed there: Future done-callbacks run exactly once after the future is done, the awaiting task resumes with the outer future's result/exception, finite-set cardinality fact; the set-up loop is only checked syntactically",
+    "asyncio.Task contract T1-T5 (create_task returns a fresh not-started task; cancel() requests; a not-started task with a pending request finishes cancelled without running; delivery at the current await; no spurious CancelledError): proved for the interpreter's reference implementation asyncio.tasks._PyTask / asyncio.futures._PyFuture by the units asyncio.tasks.Task and asyncio.futures.Future (which run with every pool check); ASSUMED: the C accelerator _asyncio.Task/Future that normally runs behaves like that reference implementation (bounded cross-check against the live interpreter: replay/assumed_contracts.py, thorough tier), coroutine send/throw semantics, the loop runs every call_soon handle exactly once",
+    "asyncio.Semaphore / Lock / Event: NOT assumed any more - their transition systems (DESIGN A.1; Lock.acquire never suspends on a free lock nobody waits for; Event set/is_set/wait) are verified from the interpreter's own asyncio/locks.py by the units asyncio.locks.* (which run with every pool check); what remains assumed there is collections.deque and that the C accelerator of Future/Task behaves like the reference implementation verified by the units asyncio.futures.Future / asyncio.tasks.Task",
+    "asyncio.gather: its contract (normal return => every distinct child done; without return_exceptions the exception raised is the own exception of a finished child or a CancelledError for a child that finished cancelled; with return_exceptions only a requested cancellation makes it raise) is the invariant G1-G3 of gather's done-callback, verified from the interpreter's own asyncio/tasks.py by unit asyncio.tasks.gather; assumed there: finite-set cardinality fact, ensure_future; that Future done-callbacks run exactly once after the future is done and that the awaiting task resumes with the outer future's result/exception is proved for the reference implementation by the units asyncio.futures.Future / asyncio.tasks.Task; the set-up loops are executed by unit asyncio.tasks.gather.setup",
     "cooperative atomicity: one event loop, one OS thread; control leaves a task only at an await that suspends or at a call-out to user code",
     "user code touches the pool only through its public API (U1), calling a coroutine function runs no user code (U3), user code raises only Exception subclasses or CancelledError (U7)",
     "U4: pool_size is not assigned while tasks are in flight (used by C01-C14; NOT assumed for C15)",
